@@ -660,6 +660,17 @@ def fault_scenarios(tier):
                 out.append(with_inject(base, [{"at": p, "kind": "suspend", "arg": "f1"}, {"at": p + 2, "kind": "release", "arg": "f1"}],
                                        ["resume"] * 3, f"suspend@{p}"))
                 out.append(with_inject(base, [{"at": p, "kind": "abort"}], ["resume"] * 3, f"abort@{p}"))
+    # a call that succeeds the first time and raises when it is REPLAYED after a rewind: the data point already emitted was rolled
+    # back for re-taking and the run then fails before the re-take
+    for prog, dev, op in (("fly", "fly1", "collect"), ("two", "det", "read")):
+        base = base_scenario(prog, faults={dev: {op: ["ok", "raise"]}})
+        base["id"] = f"{prog}|fault2:{dev}.{op}"
+        n = run_one(base)["points"]
+        for p in range(0, n + 1, 2 if quick else 1):
+            out.append(with_inject(base, [{"at": p, "kind": "pause"}], ["resume"] * 3, f"pause@{p}"))
+            if not quick:
+                out.append(with_inject(base, [{"at": p, "kind": "suspend", "arg": "f1"}, {"at": p + 2, "kind": "release", "arg": "f1"}],
+                                       ["resume"] * 3, f"suspend@{p}"))
     base = base_scenario("move", delay={"motor": 1.0, "det": 1.0})
     base["id"] = "move|slow"
     n = run_one(base)["points"]
@@ -1272,6 +1283,8 @@ def sig_suffix(trace):
             s += "~plancloses"
         if "|fault:" in trace_id:
             s += "~fault:" + trace_id.split("|fault:")[1].split("|")[0]      # the device fault that was injected
+    if "|fault2:" in trace_id:
+        s += "~fails-on-replay:" + trace_id.split("|fault2:")[1].split("|")[0]      # the device call fails when it is replayed
     if trace_id.startswith("badconsumer:"):
         s += "~consumer-fails-on-" + trace_id.split("|doc:")[1]      # the fault that was injected
     return s
